@@ -516,6 +516,86 @@ func robustFamilies(c *CheckCtx, modes [][]string) []family {
 		}
 		return &robustCase{Exec: srcExec(sb.String(), pickMode(r)...)}
 	}})
+	fams = append(fams, family{name: "size-boundary", n: c.N(120, 2400), gen: func(r *RNG, i int) *robustCase {
+		// well-formed programs in which ONE thing is large: elements of a (nested)
+		// literal, block parameters, arguments, parameters, keywords, union
+		// members, chain links, nesting depth, overloads tried. Sizes straddle the
+		// small powers of two and 10, 20, 100 where fixed-size buffers end.
+		n := Pick(r, []int{7, 8, 9, 10, 11, 15, 16, 17, 19, 20, 21, 24, 31, 32, 33, 40, 63, 64, 65, 100, 128, 130})
+		seq := func(k int, f func(j int) string) string {
+			var xs []string
+			for j := 0; j < k; j++ {
+				xs = append(xs, f(j))
+			}
+			return strings.Join(xs, ", ")
+		}
+		lit := func(j int) string { return Pick(r, []string{fmt.Sprint(j), "\"s\"", "1.5", ":k", "nil"}) }
+		var sb strings.Builder
+		switch r.Intn(14) {
+		case 0: // a nested array with n elements, block with 1-3 parameters
+			fmt.Fprintf(&sb, "a = [[%s]]\na.each do |%s|\n  dbtp x\nend\ndbtp a\n", seq(n, lit), Pick(r, []string{"x", "x, y", "x, y, z", "x, *y"}))
+		case 1: // an array of n small arrays
+			fmt.Fprintf(&sb, "a = [%s]\na.each do |x, y|\n  dbtp x\n  dbtp y\nend\n", seq(n, func(j int) string { return "[" + lit(j) + ", " + lit(j+1) + "]" }))
+		case 2: // a hash with n pairs
+			fmt.Fprintf(&sb, "h = {%s}\nh.each do |k, v|\n  dbtp v\nend\ndbtp h[:k3]\n", seq(n, func(j int) string { return fmt.Sprintf("k%d: %s", j, lit(j)) }))
+		case 3: // a block with n parameters
+			fmt.Fprintf(&sb, "[[1, 2]].each do |%s|\n  dbtp p0\nend\n", seq(n, func(j int) string { return fmt.Sprintf("p%d", j) }))
+		case 4: // a method with n parameters, called with n arguments
+			fmt.Fprintf(&sb, "def wide(%s)\n  dbtp p0\n  p%d\nend\ndbtp wide(%s)\nwide(1)\n", seq(n, func(j int) string { return fmt.Sprintf("p%d", j) }), n-1, seq(n, lit))
+		case 5: // n keywords
+			fmt.Fprintf(&sb, "def kws(%s)\n  k0\nend\ndbtp kws(%s)\n", seq(n, func(j int) string { return fmt.Sprintf("k%d: %d", j, j) }), seq(n, func(j int) string { return fmt.Sprintf("k%d: %s", n-1-j, lit(j)) }))
+		case 6: // n arguments to configured methods
+			fmt.Fprintf(&sb, "a = [1]\na.push(%s)\ndbtp a\nputs(%s)\n\"s\".upcase(%s)\n", seq(n, lit), seq(n, lit), seq(n, lit))
+		case 7: // a splat of an n-element array, a rest parameter receiving n values
+			fmt.Fprintf(&sb, "def rest(*xs)\n  dbtp xs\n  xs\nend\nv = [%s]\ndbtp rest(*v)\ndbtp rest(%s)\n", seq(n, lit), seq(n, lit))
+		case 8: // a chain of n calls
+			fmt.Fprintf(&sb, "s = \"abc\"\ndbtp s%s\n", strings.Repeat(".to_s", n))
+		case 9: // n-fold nesting of blocks / conditionals
+			for j := 0; j < n && j < 40; j++ {
+				fmt.Fprintf(&sb, "%s%s\n", strings.Repeat("  ", j), Pick(r, []string{"[1].each do |e|", "if true", "while false", "1.times do"}))
+			}
+			m := n
+			if m > 40 {
+				m = 40
+			}
+			fmt.Fprintf(&sb, "%sdbtp 1\n", strings.Repeat("  ", m))
+			for j := m - 1; j >= 0; j-- {
+				fmt.Fprintf(&sb, "%send\n", strings.Repeat("  ", j))
+			}
+		case 10: // a union of n classes
+			for j := 0; j < n; j++ {
+				fmt.Fprintf(&sb, "class U%d\n  def m\n    %s\n  end\nend\n", j, lit(j))
+			}
+			fmt.Fprintf(&sb, "u = [%s][0]\ndbtp u\ndbtp u.m\nu.zz\n", seq(n, func(j int) string { return fmt.Sprintf("U%d.new", j) }))
+		case 11: // multiple assignment with n targets
+			fmt.Fprintf(&sb, "%s = %s\ndbtp t0\ndbtp t%d\n", seq(n, func(j int) string { return fmt.Sprintf("t%d", j) }), seq(n, lit), n-1)
+		case 12: // n elsif branches / n when branches
+			sb.WriteString("x = 1\nif x == 0\n  y = 0\n")
+			for j := 1; j < n; j++ {
+				fmt.Fprintf(&sb, "elsif x == %d\n  y = %s\n", j, lit(j))
+			}
+			sb.WriteString("end\ndbtp y\ncase x\n")
+			for j := 0; j < n; j++ {
+				fmt.Fprintf(&sb, "when %d then %s\n", j, lit(j))
+			}
+			sb.WriteString("end\n")
+		default: // a superclass chain of n classes, n includes
+			sb.WriteString("class C0\n  def root\n    1\n  end\nend\n")
+			for j := 1; j < n; j++ {
+				fmt.Fprintf(&sb, "class C%d < C%d\nend\n", j, j-1)
+			}
+			fmt.Fprintf(&sb, "dbtp C%d.new.root\nC%d.new.zz\n", n-1, n-1)
+			for j := 0; j < n; j++ {
+				fmt.Fprintf(&sb, "module M%d\n  def m%d\n    %d\n  end\nend\n", j, j, j)
+			}
+			sb.WriteString("class Host\n")
+			for j := 0; j < n; j++ {
+				fmt.Fprintf(&sb, "  include M%d\n", j)
+			}
+			fmt.Fprintf(&sb, "end\ndbtp Host.new.m%d\n", n-1)
+		}
+		return &robustCase{Exec: srcExec(sb.String(), pickMode(r)...)}
+	}})
 	fams = append(fams, generatedFamilies(c, modes)...)
 	return fams
 }
